@@ -154,6 +154,9 @@ func init() {
 	po.ntlPct = 10
 	pos := pSuite(po, []string{"osap.block.withmatches"})
 	suites["p-osap"] = func(r *rng, id string, cnt counters, emit func(line, out string)) ([]finding, bool) {
+		if len(id) > 2 && id[len(id)-2:] == ".0" { // the first script of every shard: far matches at a few KiB
+			return genPMidOSAP(r, id, cnt, emit).finds, true
+		}
 		if budgetScriptID(id) {
 			return genPSABudget("OSAP", r, id, cnt, emit).finds, true
 		}
